@@ -8,6 +8,10 @@
 //                     runs hasPrefix/hasSuffix on std::vector<char>, std::deque<char>, std::list<char>, std::string_view
 //   f <fmt> <arg>...  formatString(fmt, args...);  arg = d:<int> | l:<long> | u:<unsigned> | c:<char code> |
 //                     w:<wint_t code> | s:<count>:<piece>;  answer = the text or ERR:Exception (conversion error)
+//   tp <p> <r> / tq <p> <0|1> <r> / tc <base> <p> <r>
+//                     one row of the example tables in the documentation of processPath / prettyPath / concatPaths
+//                     (written by tools/checks/c18.py from the current path.hh): answer = what the code returns, the
+//                     oracle compares it with the documented result <r>
 //   F <width>         formatString("%<width>d", 7) for results too long to print: answer ok | ERR:Exception, the text is
 //                     checked by the oracle only (width-1 blanks and '7')
 //
@@ -464,6 +468,25 @@ Result exec(const string& line) {
     string x, y;
     if (!dec(w[1], x) || !dec(w[2], y)) return Result{"bad-op", "FAIL malformed string token"};
     return execB(x, y);
+  }
+  if ((w[0] == "tp" && w.size() == 3) || (w[0] == "tq" && w.size() == 4) || (w[0] == "tc" && w.size() == 4)) {
+    std::vector<string> v;
+    for (size_t i = 1; i < w.size(); ++i) {
+      string t;
+      if (w[0] == "tq" && i == 2) {
+        if (w[i] != "0" && w[i] != "1") return Result{"bad-op", "FAIL malformed isDirectory"};
+        t = w[i];
+      } else if (!dec(w[i], t)) return Result{"bad-op", "FAIL malformed string token"};
+      v.push_back(t);
+    }
+    stat("op_doc_row");
+    const string got = w[0] == "tp" ? Dune::processPath(v[0]) : w[0] == "tq" ? Dune::prettyPath(v[0], v[1] == "1") : Dune::concatPaths(v[0], v[1]);
+    Result res;
+    res.impl = enc(got);
+    if (got != v.back())
+      fail(res, string(w[0] == "tp" ? "processPath" : w[0] == "tq" ? "prettyPath" : "concatPaths") + " returns " + enc(got) +
+                    ", the table in the documentation (path.hh) says " + enc(v.back()));
+    return res;
   }
   if (w[0] == "f" && w.size() >= 2) return execF(w);
   if (w[0] == "F" && w.size() == 2) return execBig(w[1]);
